@@ -188,6 +188,30 @@ def main(argv):
                          f"get_human_readable_unit({float(x)!r}, {given_prefix + u!r}) = ({val!r}, {unit!r}) which denotes {den!r} {u}", rq)
             elif x >= F(1, 10**6) and not (0.999999 <= val and (unit[:-len(u)] == "" or val < 1000.001)):
                 R.report("C19", "rescale_not_readable", key, f"get_human_readable_unit({float(x)!r}, {u!r}) = ({val!r}, {unit!r})", rq)
+        # the same amounts as STORED quantities of a liquid (shown in L), a solid (g), an enzyme (U) and a container's volume (L):
+        # convert_from_storage_to_standard_format, which writes the amounts into the constructor / create_solution instructions
+        if u == "mol" or x <= 0:
+            continue
+        cfg = pp.config
+        for what, label in ((inst.subs[{"L": "W", "g": "N", "U": "E"}[u]], "substance"),) + (((pp.Container("c"), "container"),) if u == "L" else ()):
+            R.ran("C19")
+            key = {"op": "standard_format", "unit": u, "what": label, "magnitude": "below_micro" if x < F(1, 10**6) else "normal"}
+            if label == "container":
+                stored = float(x) / float(PREFIX[cfg.volume_storage_unit[:-1]])
+            else:
+                stored = float(x) if u == "U" else U.convert_from(what, float(x), u, cfg.moles_storage_unit)
+            try:
+                val, unit = U.convert_from_storage_to_standard_format(what, stored)
+            except Exception as e:
+                R.report("C19", "standard_format_raises", dict(key, exc=type(e).__name__), f"convert_from_storage_to_standard_format({label}, {stored!r}) raised {type(e).__name__}: {e}", rq)
+                continue
+            if not unit.endswith(u) or unit[:-len(u)] not in PREFIX:
+                R.report("C19", "standard_format_unit", key, f"convert_from_storage_to_standard_format({label}, {stored!r}) returned unit {unit!r} for an amount in {u}", rq)
+                continue
+            mult = float(PREFIX[unit[:-len(u)]])
+            if abs(val * mult - float(x)) > 1e-9 * float(x) + 0.6 * 10 ** (-cfg.internal_precision) * mult:
+                R.report("C19", "standard_format_changes_amount", key,
+                         f"convert_from_storage_to_standard_format({label}, {stored!r}) = ({val!r}, {unit!r}) which denotes {val * mult!r} {u}; stored were {float(x)!r} {u}", rq)
     os.remove(info["out"])
 
     # ---- chains, model-checked without emission (laws as invariants of paths) -----------------------------------
